@@ -152,6 +152,24 @@ func c09Run(c *fw.Case, env *fw.Env) *fw.Obs {
 		o.Violate("panic/"+class, "%v: %s", args, out.panicText)
 		return o
 	}
+	// an exchange in which every update is acceptable must not fail
+	acceptable := p.FailAt == 0 && p.ShallowLocal == 0
+	for i, pl := range w.plans {
+		switch pl.Relation {
+		case "new", "equal", "remote-ahead":
+			if strings.HasPrefix(pl.Name, "tag:") && pl.Relation == "remote-ahead" && !planForced(&p, i) {
+				acceptable = false
+			}
+		default:
+			if !planForced(&p, i) {
+				acceptable = false
+			}
+		}
+	}
+	if acceptable && out.err != nil && p.Op != "pull" {
+		o.Violate("exchange-failed/"+class, "every update of this %s is acceptable (relations %v) yet the command failed: %v; output %s", p.Op, rel, out.err, tailStr(out.out, 400))
+		return o
+	}
 	packs, objs, rounds := 0, 0, 0
 	for _, l := range out.serverLog {
 		switch l.Kind {
@@ -367,7 +385,7 @@ func init() {
 				if p.Op == "push" && rng.Intn(5) == 0 {
 					p.ShallowLocal = 1 + rng.Intn(2)
 				}
-				if i%25 == 0 && p.Op == "fetch" {
+				if i%12 == 0 && (p.Op == "fetch" || p.Op == "push") {
 					p.Slow = true
 					p.BaseRows = 4
 				}
